@@ -8,6 +8,15 @@ Local Open Scope list_scope.
 
 Definition id_of (n : node) : option N := match n with NObj id _ => Some id | NRef _ => None end.
 
+(* the members of an object that exist in the Go type of a position of kind [k] (an object of another
+   kind decoded there - a whole file read as whatever the position expects - shows only these) *)
+Definition shown (k : kind) : list string :=
+  match k with
+  | KParameter | KHeader => ["content"; "schema"; "examples"]
+  | KMedia | KMediaP => ["examples"; "schema"]
+  | _ => walked k
+  end.
+
 Section SPEC.
   Variable files : string -> option file.
   Variable rpath : option string -> string -> string.
@@ -52,7 +61,7 @@ Section SPEC.
         match nd with
         | NObj _ kids =>
             flat_map (fun x => match x with (c, key, k', child) =>
-                        spec_obs fuel' u (prefix ++ [label c key]) child k' hops end) kids
+                        if str_in c (shown k) then spec_obs fuel' u (prefix ++ [label c key]) child k' hops else [] end) kids
         | NRef r =>
             match deref fuel u r k with
             | None => [(prefix, None)]
@@ -95,12 +104,6 @@ End SPEC.
 (* the loader's own result, listed the same way: from the final state.  A stored value is seen
    through the Go type of the position that refers to it: when an object of another kind was decoded
    there (a whole file read as whatever the position expects), only the members that type has exist *)
-Definition shown (k : kind) : list string :=
-  match k with
-  | KParameter | KHeader => ["content"; "schema"; "examples"]
-  | KMedia | KMediaP => ["examples"; "schema"]
-  | _ => walked k
-  end.
 Fixpoint observe (fuel : nat) (s : lstate) (prefix : list string) (inst : N) (path : list string) (nd : node) (k : kind) (hops : nat) : list (list string * option N) :=
   match fuel with
   | O => []
